@@ -42,6 +42,7 @@ class Session:
         self.had_restart = False
         self.gen = None
         self.tol = checks.Tol()
+        self.tol_atol = 0.0  # D20 is fixed: the solver's convergence test is purely relative
         self.outcomes = []
         self.interleave = []
         self.nontrivial = set()
